@@ -356,7 +356,8 @@ def materialize(case):
     b, doc, fdocs = _BASES[bi]
     if fname is None:
         text = D.dump(D.apply_edit(doc, edit))
-        return {"text": text, "name": b["name"], "files": b["files"], "origin": b["origin"] + " :: " + D.describe(edit), "kind": "edit:" + edit[0]}
+        return {"text": text, "name": b["name"], "files": b["files"], "origin": b["origin"] + " :: " + D.describe(edit),
+                "kind": case.get("kind_override") or ("edit:" + edit[0])}
     t2 = D.dump(D.apply_edit(fdocs[fname], edit))
     return {"text": b["text"], "name": None, "files": dict(b["files"], **{fname: t2}),
             "origin": b["origin"] + f" [{fname}] :: " + D.describe(edit), "kind": "edit-included:" + edit[0]}
@@ -369,7 +370,7 @@ def _worker(case):
         except Exception:  # noqa: an edit PyYAML cannot write down
             return {"skip": True}
         res = evaluate(case)
-        res["case"] = {k: case.get(k) for k in ("text", "name", "files", "origin", "kind")}
+        res["case"] = {k: case.get(k) for k in ("text", "name", "files", "origin", "kind", "probe")}
         res["rq"] = model_request(case)
         return res
     except BaseException as e:  # noqa  (a crash of the harness itself must be visible)
@@ -392,7 +393,25 @@ def evaluate_all(cases):
         return pool.map(_worker, cases, chunksize=16)
 
 
-def oracle(res):
+# Recipe errors that carry no file/line on the recorded tree (480f922 + fix commits): raised by code that has no
+# template / statement at hand (a non-mapping top-level element, the option merge, the static random_reference
+# pass, the row history, conversions inside plugins, anything that reaches the user through a `var`, which adds no
+# location).  A DataGenError without location raised anywhere else is reported: the second half of the property
+# ("and, where the fault is attributable, the file and line").
+NO_LOCATION_BASELINE = {
+    "DataGenSyntaxError@parse_recipe_yaml.categorize_top_level_objects",
+    "DataGenNameError@data_generator.merge_options",
+    "DataGenSyntaxError@data_generator_runtime.get_referent_name",
+    "DataGenError@row_history.random_row_reference",
+    "DataGenError@row_history.next",
+    "DataGenError@Schedule._normalize_frequency",
+    "DataGenTypeError@Schedule._normalize_until",
+    "DataGenValueError@UniqueId._convert",
+    "*@data_generator_runtime_object_model.VariableDefinition.evaluate",
+}
+
+
+def oracle(res, case=None):
     """Model-independent: [(signature, what)] for one real run."""
     out = []
     oc = res["outcome"]
@@ -405,8 +424,21 @@ def oracle(res):
             out.append(("C20:error-without-message", f"{res['errtype']} carries no message"))
         if res["stage"] in STATIC_STAGES and res["rows"] > 0:
             out.append(("C20:rows-before-structural-error", f"{res['rows']} rows were written before {res['error']}"))
+        if not res.get("has_line") and str(res["site"]) not in NO_LOCATION_BASELINE:
+            out.append(("C20:error-without-location@" + str(res["site"]).split("@", 1)[-1],
+                        f"{res['error']!r} carries no file/line (raised in {res['site']}, which is not one of the places known to have no location at hand)"))
     if oc.startswith("internal:") and res["stage"] in STATIC_STAGES and res["rows"] > 0:
         out.append(("C20:rows-before-structural-error", f"{res['rows']} rows were written before {res['error']}"))
+    probe = (case or {}).get("probe")
+    if probe and oc == "recipe_error":
+        # an uncompilable template that is evaluated first thing: the fault is attributable to its own line
+        where = f"{res.get('file')}:{res.get('line')}"
+        if not res.get("line") or not res.get("file"):
+            out.append(("C20:template-error-location:" + probe["position"],
+                        f"the error for the uncompilable template {probe['template']!r} (line {probe['line']}) carries no complete location ({where})"))
+        elif probe["strict"] and res["line"] != probe["line"]:
+            out.append(("C20:template-error-location:" + probe["position"],
+                        f"the error for the uncompilable template {probe['template']!r} on line {probe['line']} is reported at {where}"))
     return out
 
 
@@ -485,8 +517,11 @@ def check_cases(cases, rep, findings_by_sig=None):
         model = models.get(i)
         nontrivial = oc != "ok"
         slim = {k: case.get(k) for k in ("text", "name", "files", "origin")}
+        if case.get("probe"):
+            slim["probe"] = case["probe"]
+            rep.count("probe:" + case["probe"]["position"] + ":" + (res["errtype"] or oc))
         rep.case(slim, nontrivial=nontrivial)
-        for sig, what in oracle(res):
+        for sig, what in oracle(res, case):
             rep.violation(sig, what, slim, expected="a DataGenError or a successful run", observed=res["error"])
             rep.count("oracle:" + sig)
         if model is None:
@@ -546,6 +581,20 @@ def edit_cases(bases, rng, per_base, extra=True):
     return cases
 
 
+def inject_cases(bases, rng, per_base):
+    """Every (sampled) scalar value position of every base x every broken / failing template (uses _BASES)."""
+    cases = []
+    templates = D.BROKEN_TEMPLATES + D.FAILING_TEMPLATES
+    for bi, (b, doc, fdocs) in enumerate(_BASES):
+        combos = [(path, t) for path in D.scalar_value_positions(doc) for t in templates]
+        if b["origin"].startswith("gen/positions"):
+            pass  # the bases written for this: everything
+        elif len(combos) > per_base:
+            combos = rng.sample(combos, per_base)
+        cases.extend({"spec": (bi, None, ("replace", path, t)), "kind_override": "inject"} for path, t in combos)
+    return cases
+
+
 HAND_CASES = [
     # one version declaration per file, different versions (the including file's wins)
     {"text": "- snowfakery_version: 2\n- include_file: b.yml\n- object: A\n", "name": None, "files": {"b.yml": "- snowfakery_version: 3\n- object: B\n"}, "origin": "hand/versions-differ-across-files", "kind": "hand"},
@@ -579,6 +628,7 @@ def run(ctx, rep, findings):
     first.extend(HAND_CASES)
     for t in D.RAW_TEXTS:
         first.append({"text": t, "name": None, "files": None, "origin": "raw", "kind": "raw"})
+    first.extend(D.probe_cases())
     check_cases(first, rep)
 
     # 2 bases
@@ -604,6 +654,15 @@ def run(ctx, rep, findings):
             break
         check_cases(cases[i : i + chunk], rep)
 
+    # 3b formulas that do not compile / fail when rendered, injected into scalar value positions
+    inj = inject_cases(bases, ctx.rng, ctx.scale(40, 600))
+    rep.extra["inject_cases"] = len(inj)
+    for i in range(0, len(inj), chunk):
+        if ctx.time_left() < 45:
+            rep.notes.append(f"time budget: stopped after {i} of {len(inj)} template injections")
+            break
+        check_cases(inj[i : i + chunk], rep)
+
     # 4 grammar-free random YAML
     n = ctx.scale(4000, 20000)
     rnd = [{"text": D.dump(D.random_doc(ctx.rng)), "name": None, "files": None, "origin": f"random{i}", "kind": "random"} for i in range(n)]
@@ -627,8 +686,10 @@ def shrink(case, signature):
             res = evaluate(dict(case, text=text, want_digest=False))
         except Exception:  # noqa
             return False
-        return any(sig == signature for sig, _ in oracle(res))
+        return any(sig == signature for sig, _ in oracle(res, case))
 
+    if case.get("probe"):
+        return case  # already minimal; the expected line belongs to this exact text
     try:
         doc = D.load(case["text"])
     except Exception:  # noqa
